@@ -81,9 +81,9 @@ CHECKS = {
     text='G1: TLC checks on every interleaving of operations with per-host consumption of the FIFO channel: C07_Deliveries (per in-flight emit: at most once per client, only to clients addressed at some point while in flight, exactly the addressed set when no membership change raced it, never on the issuing host by consumption), C07_SingleServerEquivalence (immediate delivery: at every quiet point memberships equal those of ONE SioServer holding all clients, and the packets/handler runs of each operation equal the single server\'s), C07_OwnerHoldsClient, C07_CallbackOnOrigin (application callback only on the issuing host, with the acknowledging client\'s arguments; the relay partial and callback messages modelled as in the code). G2: two real servers per cluster with the library\'s own listener loop running in a thread/task, stepped one message at a time; every action (client frames on either host, emit/enter/leave/close/disconnect via either host or the write-only manager, client ACKs, one listener turn) from every reachable cluster state is re-executed by TLC: per-host manager state, channel contents (unpickled published messages), cursors, packets per client, handler and callback invocations. G3: state counts equal.',
     ref='4/C07', note=SRV_NOTE + ' Channel = ordered list of pickled messages, as the bundled backends publish them; Kombu/Kafka/ZeroMQ/aio-pika transports are not run (client libraries absent). Remote membership operations are linearized where the owning host applies them (DESIGN.md 4/C07).'),
  'C15': dict(
-    technique='TLA+ PubSub.tla listener turn (Consume) with junk classes, forged/foreign callback messages, backend iterator failures and raising application code; TLC invariants + exhaustive graph validation with the library\'s real _thread() loop',
-    text='C15_ListenerAlive and C15_EchoAndJunkChangeNothing on the spec; on the real PubSubManager and AsyncPubSubManager every element of a 29-variant junk catalogue (undecodable bytes, pickles/JSON of non-dicts, dicts without method, unknown methods, missing/ill-typed/surplus fields, values on which the loop\'s own test raises) plus a failing backend iterator is sent down the channel in every quiet state of a small cluster, every listener takes its turn on it, and a sentinel broadcast sent right behind it must be applied by every listener with its exact effect (JunkProbe action); junk and faults are also interleaved with in-flight messages, own-host echoes, callback messages addressed to other hosts / unknown ids, application callbacks that raise and a disconnect handler that raises inside the listener. Every step is re-executed by TLC against PubSub.tla (state of every host, cursors, liveness of the loop, outputs).',
-    ref='4/C15', note=SRV_NOTE + ' The junk classification is the reference reading in harness/pubsub.py (validated against the unchanged tree: a wrong class is a rejected edge). Redis retry loops: see evidence (fake redis module) when built.'),
+    technique='TLA+ PubSub.tla listener turn (Consume) with junk classes, forged/foreign callback messages, backend iterator failures and raising application code; TLC invariants + exhaustive graph validation with the library\'s real _thread() loop; TLA+ RedisRetry.tla + trace validation of the Redis backends over a fake redis client',
+    text='C15_ListenerAlive and C15_EchoAndJunkChangeNothing on the spec; on the real PubSubManager and AsyncPubSubManager every element of a 29-variant junk catalogue (undecodable bytes, pickles/JSON of non-dicts, dicts without method, unknown methods, missing/ill-typed/surplus fields, values on which the loop\'s own test raises) plus a failing backend iterator is sent down the channel in every quiet state of a small cluster, every listener takes its turn on it, and a sentinel broadcast sent right behind it must be applied by every listener with its exact effect (JunkProbe action); junk and faults are also interleaved with in-flight messages, own-host echoes, callback messages addressed to other hosts / unknown ids, application callbacks that raise and a disconnect handler that raises inside the listener. Every step is re-executed by TLC against PubSub.tla (state of every host, cursors, liveness of the loop, outputs). Valid messages are also delivered in every encoding a backend may use (pickle bytes, JSON text, JSON bytes, dict). Broker failures: RedisManager and AsyncRedisManager run over a fake redis client with scripted failures (every pattern of connect / subscribe / listen failures up to a bound, outages long enough for the back-off to reach its cap, publish failures); the recorded executions (sleeps observed through the module attribute, connection generations, messages produced and yielded) are replayed by TLC against RedisRetry.tla: the listener never stops, sleeps 1,2,4,...,60 and back to 1 after recovery, resubscribes on the NEW connection, loses no message; _publish retries once on a fresh connection and never raises.',
+    ref='4/C15', note=SRV_NOTE + ' The junk classification is the reference reading in harness/pubsub.py (validated against the unchanged tree: a wrong class is a rejected edge). The Redis legs trust the fake `redis` client (harness/fake_redis: scripted failures of from_url / subscribe / listen / publish) to behave like the real library at those four calls.'),
  'C18': dict(
     technique='TLA+ Admin.tla (Accept over credential VALUES, admin requests gated by mode/read_only, everything else = SioServer) model-checked by TLC; real instrumented Server/AsyncServer: credential cases judged by TLC (AdminCases.tla), exhaustive transition-graph validation with an admin client attached (AdminGraph.tla), and the plain SioServer graphs re-explored on instrumented servers',
     text='(a) Credentials: for auth in {False, dict, list of dicts, sync predicate, coroutine predicate} x (the specification payload set: absent, None, scalars, list containing the credentials, equal, other member, subset, superset, wrong value, type-confused, case-changed, nested, {} + seeded mutations of the credentials) a real CONNECT to the admin namespace is sent to a freshly instrumented real server that also holds an application client; TLC evaluates Accept on the values actually sent and demands CONNECT iff entitled, CONNECT_ERROR "authentication failed" and no membership otherwise, nothing else on the server touched; TLC also checks AcceptOnlyWhenEntitled on the spec. (b) Gating: with an authenticated admin attached, every admin request {emit, join, leave, _disconnect} x room filter from every reachable state: in read_only or production mode UNCHANGED application state and no packet/handler (C18_GatedRequestsDoNothing), in development read-write exactly the corresponding server call; every edge re-executed by TLC. (c) Transparency: the SioServer alphabets (acks, events, lifecycle, rooms, sessions, residue, hostile) explored exhaustively on instrumented servers (development/production, admin attached or not, projection hiding the admin namespace and transport) must yield exactly the plain SioServer graph (every edge + equal state counts).',
